@@ -99,12 +99,22 @@ struct BTreeInspector {
         return it.curr_slot;
     }
 
+    //! the BTree behind a facade (or the BTree itself when the base class is used directly)
+    template <class K, class V, class KoV, class Cmp, class Tr, bool D, class A>
+    static const tlx::BTree<K, V, KoV, Cmp, Tr, D, A>& impl(const tlx::BTree<K, V, KoV, Cmp, Tr, D, A>& t) {
+        return t;
+    }
+    template <class Facade>
+    static const typename Facade::btree_impl& impl(const Facade& f) {
+        return f.tree_;
+    }
+
     //! independent walk over the node graph; never follows a pointer it has not validated
     template <class Facade>
     static void walk(const Facade& f, Walk& w) {
-        typedef typename Facade::btree_impl Impl;
+        typedef typename std::decay<decltype(impl(f))>::type Impl;
         typedef typename Impl::key_type key_type;
-        const Impl& t = f.tree_;
+        const Impl& t = impl(f);
         w.reset();
         if (!t.root_) {
             if (t.head_leaf_ || t.tail_leaf_) w.viol("C02/inspect-empty", "root_ is null but head_leaf_/tail_leaf_ is not");
@@ -279,7 +289,8 @@ namespace bt {
 // ---------------------------------------------------------------------------------------------
 // configuration space
 // ---------------------------------------------------------------------------------------------
-enum Kind { SET = 0, MSET = 1, MAP = 2, MMAP = 3 };
+enum Kind { SET = 0, MSET = 1, MAP = 2, MMAP = 3,
+            RAWSET = 4, RAWMSET = 5 }; // tlx::BTree used directly (set-like, unique / duplicate keys) -- C02 only
 enum CmpId { CMP_LESS = 0, CMP_GREATER = 1, CMP_STATE = 2 };
 
 template <int Leaf, int Inner, size_t Bin>
@@ -345,6 +356,7 @@ struct CfgInfo {
     bool binary;
     bool counting; // CountingAllocator
     bool tracked;  // Tracked elements
+    bool raw;      // tlx::BTree itself instead of one of the four facades
     bool is_map() const { return kind == MAP || kind == MMAP; }
     bool multi() const { return kind == MSET || kind == MMAP; }
     bool stateful() const { return cmp == CMP_STATE; }
@@ -454,13 +466,27 @@ struct TreeOf<MMAP, Key, Dat, Cmp, Tr, Alloc> {
     typedef tlx::btree_multimap<Key, Dat, Cmp, Tr, Alloc<std::pair<Key, Dat> > > type;
 };
 
+template <class Key>
+struct IdentityKey {
+    static const Key& get(const Key& v) { return v; }
+};
+template <class Key, class Dat, class Cmp, class Tr, template <class> class Alloc>
+struct TreeOf<RAWSET, Key, Dat, Cmp, Tr, Alloc> {
+    typedef tlx::BTree<Key, Key, IdentityKey<Key>, Cmp, Tr, false, Alloc<Key> > type;
+};
+template <class Key, class Dat, class Cmp, class Tr, template <class> class Alloc>
+struct TreeOf<RAWMSET, Key, Dat, Cmp, Tr, Alloc> {
+    typedef tlx::BTree<Key, Key, IdentityKey<Key>, Cmp, Tr, true, Alloc<Key> > type;
+};
+
 template <int ID, Kind K, int L, int I, size_t B, class CT, class Elem, bool Counting>
 struct Cfg {
     static const int id = ID;
-    static const Kind kind = K;
+    static const bool raw = (K == RAWSET || K == RAWMSET);
+    static const Kind kind = (K == RAWSET ? SET : K == RAWMSET ? MSET : K); // which std container it corresponds to
     static const int leaf = L, inner = I;
     static const bool is_map = (K == MAP || K == MMAP);
-    static const bool multi = (K == MSET || K == MMAP);
+    static const bool multi = (K == MSET || K == MMAP || K == RAWMSET);
     static const bool counting = Counting;
     static const bool binary = (B == 0);
     typedef CT cmp_tag;
@@ -583,10 +609,11 @@ public:
             if constexpr (C::is_map) it = two ? t.insert2(h, v.first, v.second) : t.insert(h, v);
             else it = t.insert(h, v);
         }
-        else if constexpr (C::multi) {
+        else if constexpr (C::multi && !C::raw) {
             if constexpr (C::is_map) it = two ? t.insert2(v.first, v.second) : t.insert(v);
             else it = t.insert(v);
         }
+        else if constexpr (C::multi) it = t.insert(v).first; // BTree::insert always returns (iterator, bool)
         else {
             std::pair<iterator, bool> r;
             if constexpr (C::is_map) r = two ? t.insert2(v.first, v.second) : t.insert(v);
@@ -775,7 +802,7 @@ template <class C>
 struct Register {
     explicit Register(const char* name) {
         ConfigEntry e = {{C::id, name, C::kind, C::cmp_tag::id, C::leaf, C::inner, C::binary, C::counting,
-                          std::is_same<typename C::Key, Tracked>::value},
+                          std::is_same<typename C::Key, Tracked>::value, C::raw},
                          &create_tree<C>};
         config_table().push_back(e);
     }
